@@ -100,7 +100,7 @@ def clauses_c04(c, H):
                 c.reach("default-fallback")
             # (1) stopped: is_executing False, current_state ""
             c.prove("C04.1 stopped-flags", s_and(s_not(is_exec), cur_attr == "", cur_nt == ""),
-                    info=dict(iteration=i, is_executing=repr(is_exec), current_state=cur_attr, nt=cur_nt,
+                    info=dict(iteration=i, is_executing=is_exec, current_state=cur_attr, nt=cur_nt,
                               last=L.name if L else None))
             # (1) done() invoked when it stops
             if prev_run or engaged_in(it):
@@ -112,7 +112,7 @@ def clauses_c04(c, H):
             exp = expected_current(it)
             c.reach("running-after-iteration")
             c.prove("C04.3 running-flags", s_and(is_exec, cur_attr == exp, cur_nt == exp),
-                    info=dict(iteration=i, is_executing=repr(is_exec), current_state=cur_attr, expected=exp))
+                    info=dict(iteration=i, is_executing=is_exec, current_state=cur_attr, expected=exp))
         # (1) stop by expiry of the last timed state -> done() invoked (even when it restarts at once)
         if prev_run and not any_ext_stop(it) and prev_cur is not None:
             pm = meta[prev_cur]
@@ -138,7 +138,7 @@ def clauses_c04(c, H):
                         info=dict(iteration=i, expected=tgt, got=first.name if first else None))
                 if ok:
                     c.prove("C04.2 engage-initial_call", first.ic, info=dict(iteration=i))
-                    c.prove("C04.2 engage-tm-zero", s_eq(first.tm, 0), info=dict(iteration=i, tm=repr(first.tm)))
+                    c.prove("C04.2 engage-tm-zero", s_eq(first.tm, 0), info=dict(iteration=i, tm=first.tm))
         prev_run = run
         prev_cur = expected_current(it) if run else None
 
@@ -201,7 +201,7 @@ def timing_clauses(c, H, P):
         calls = it.calls
         for x in calls:
             if x.kind != "default":
-                c.prove(f"{P}.4 state_tm-nonneg", x.state_tm >= 0, info=dict(iteration=i, state=x.name, state_tm=repr(x.state_tm)))
+                c.prove(f"{P}.4 state_tm-nonneg", x.state_tm >= 0, info=dict(iteration=i, state=x.name, state_tm=x.state_tm))
                 c.prove(f"{P}.4 tm-nonneg", x.tm >= 0, info=dict(iteration=i, state=x.name))
         if not _plain_engaged(H, it):
             T = None
@@ -220,18 +220,24 @@ def timing_clauses(c, H, P):
             c.prove(f"{P}.start first-state-runs", ok, info=dict(iteration=i, got=x0.name if x0 else None))
             if not ok:
                 continue
-            c.prove(f"{P}.start tm-zero", s_eq(x0.tm, 0), info=dict(iteration=i, tm=repr(x0.tm)))
+            c.prove(f"{P}.start tm-zero", s_eq(x0.tm, 0), info=dict(iteration=i, tm=x0.tm))
             c.prove(f"{P}.start initial_call", x0.ic, info=dict(iteration=i))
             c.prove(f"{P}.start state_tm-zero", s_eq(x0.state_tm, 0), info=dict(iteration=i))
             _nested_clauses(c, H, it, now, P)
             T = _track_after(H, it, now, 0, x0.dur if meta[first]["timed"] else None)
             continue
         origin, st, entered, s, d = T["origin"], T["state"], T["entered"], T["s"], T["d"]
-        tm_exp = now - origin
         if x0 is None:
-            c.prove(f"{P}.1 engaged-state-runs", False, info=dict(iteration=i, expected=st))
+            if H.cfg.get("asm") and entered and d is not None and meta[st]["next_state"] is None and now is not None:
+                # AutonomousStateMachine: the last timed state may only end by expiry, after which nothing runs
+                c.reach("asm-finished-by-expiry")
+                c.prove(f"{P}.1 stays-until-expiry", (now - origin) > s + d,
+                        info=dict(iteration=i, state=st, note="machine finished although tm <= s+d"))
+            else:
+                c.prove(f"{P}.1 engaged-state-runs", False, info=dict(iteration=i, expected=st))
             T = None
             continue
+        tm_exp = now - origin
         if not entered:
             # requested by next_state(): runs now whatever the clock says, as a fresh entry
             c.reach("requested-state-runs")
@@ -286,13 +292,16 @@ def timing_clauses(c, H, P):
                 continue
             c.prove(f"{P}.ic entered-initial", x0.ic, info=dict(iteration=i, state=nxt))
             c.prove(f"{P}.2 successor-starts-at-expiry", s_eq(x0.tm - x0.state_tm, s + d),
-                    info=dict(iteration=i, state=nxt, start=repr(x0.tm - x0.state_tm)))
+                    info=dict(iteration=i, state=nxt, start=x0.tm - x0.state_tm))
             c.prove(f"{P}.tm-origin", s_eq(x0.tm, tm_exp), info=dict(iteration=i, state=nxt))
             _nested_clauses(c, H, it, origin, P)
             T = _track_after(H, it, origin, s + d, x0.dur if meta[nxt]["timed"] else None)
             continue
         # last timed state expired while still engaged
         if H.cfg.get("asm"):
+            c.reach("asm-call-in-finishing-iteration")
+            c.prove(f"{P}.finish no-state-after-last-expiry", False,
+                    info=dict(iteration=i, state=st, called=x0.name, kind=x0.kind))
             T = None
             continue
         c.reach("restart")
@@ -303,7 +312,7 @@ def timing_clauses(c, H, P):
             continue
         new_origin = origin + s + d
         c.prove(f"{P}.ic entered-initial", x0.ic, info=dict(iteration=i, state=first, restart=True))
-        c.prove(f"{P}.5 restart-tm-from-expiry", s_eq(x0.tm, now - new_origin), info=dict(iteration=i, tm=repr(x0.tm)))
+        c.prove(f"{P}.5 restart-tm-from-expiry", s_eq(x0.tm, now - new_origin), info=dict(iteration=i, tm=x0.tm))
         c.prove(f"{P}.5 restart-state-entered-at-zero", s_eq(x0.tm - x0.state_tm, 0), info=dict(iteration=i))
         _nested_clauses(c, H, it, new_origin, P)
         T = _track_after(H, it, new_origin, 0, x0.dur if meta[first]["timed"] else None)
@@ -324,7 +333,7 @@ def clauses_c03_default(c, H):
             return
         dcalls = [x for x in it.calls if x.kind == "default"]
         for x in dcalls:
-            c.prove("C03.nonneg default-state_tm", x.state_tm >= 0, info=dict(iteration=i, state_tm=repr(x.state_tm)))
+            c.prove("C03.nonneg default-state_tm", x.state_tm >= 0, info=dict(iteration=i, state_tm=x.state_tm))
         only_default = len(it.calls) == 1 and len(dcalls) == 1
         quiet = not [e for e in it.ext if e[0] != "none"]
         if only_default and prev is not None and quiet:
@@ -340,3 +349,57 @@ def clauses_c03_default(c, H):
                 c.reach("default-fallback")
                 c.prove("C03.ic default-fallback-initial", x.ic, info=dict(iteration=i))
         prev = dcalls[0] if only_default else None
+
+
+# ---------------------------------------------------------------------------------------
+# C13
+# ---------------------------------------------------------------------------------------
+
+
+def clauses_c13(c, H):
+    """on_enable / on_iteration / on_disable protocol of AutonomousStateMachine."""
+    iters = H.iters
+    phase = "off"  # off | fresh | running | finished
+    for i, it in enumerate(iters):
+        if it.raised:
+            c.prove("C13.no-exception", False, info=dict(iteration=i, op=it.asm_op, exc=it.raised))
+            return
+        is_exec = it.after[0]
+        if it.asm_op == "on_enable":
+            phase = "fresh"
+            continue
+        if it.asm_op == "on_disable":
+            c.reach("disabled")
+            c.prove("C13.disable stops-immediately", s_and(s_not(is_exec), len(it.calls) == 0), info=dict(iteration=i))
+            phase = "off"
+            continue
+        # on_iteration
+        if phase in ("off", "finished"):
+            c.reach("iteration-after-finish" if phase == "finished" else "iteration-while-disabled")
+            c.prove("C13.finish nothing-runs-until-next-enable", len(it.calls) == 0,
+                    info=dict(iteration=i, phase=phase, calls=[x.name for x in it.calls]))
+            c.prove("C13.finish is_executing-stays-false", s_not(is_exec), info=dict(iteration=i, phase=phase))
+            continue
+        # fresh or running: behaves as an engaged StateMachine iteration
+        nondefault = [x for x in it.calls if x.kind != "default"]
+        user_done = any(x.action == "done" for x in it.calls)
+        if phase == "fresh":
+            c.reach("first-iteration-after-enable")
+            ok = bool(it.calls) and it.calls[0].name == first_state(H.meta)
+            c.prove("C13.enable starts-at-first-state", ok, info=dict(iteration=i, calls=[x.name for x in it.calls]))
+            if ok:
+                c.prove("C13.enable tm-zero", s_eq(it.calls[0].tm, 0), info=dict(iteration=i))
+                c.prove("C13.enable initial_call", it.calls[0].ic, info=dict(iteration=i))
+        if running_after(it):
+            c.reach("asm-running")
+            n_nsn = sum(1 for x in it.calls if x.action == "nsn")
+            c.prove("C13.run one-state-per-iteration", len(it.calls) == 1 + n_nsn, info=dict(iteration=i, calls=[x.name for x in it.calls]))
+            c.prove("C13.run is_executing", is_exec, info=dict(iteration=i))
+            phase = "running"
+        else:
+            c.reach("asm-finished")
+            if user_done:
+                c.reach("asm-finished-by-done")
+            c.prove("C13.finish is_executing-false", s_not(is_exec), info=dict(iteration=i))
+            c.prove("C13.finish done-invoked", len(it.done_seqs) > 0, info=dict(iteration=i))
+            phase = "finished"
